@@ -247,6 +247,14 @@ def run_histories(ctx, searching=False):
         ctx.coverage["refuted_class_witness_on_real_code"] = {
             "statement": "Refuted.C19.version_lock_iff_any_order_refuted (untracked build syncing after a tracked one)",
             "history": history_of(c), "observed": c, "instances": len(excluded)}
+        # a genuine defect of the code (an untracked build run on a database after a tracked one leaves
+        # heights without a version row; the start-up accepts them): recorded, see known_findings.jsonl
+        ctx.add_violation("a database in which a build predating version tracking synced blocks at or above a fork height AFTER a tracked "
+                          "build had synced (history %s) is accepted: the heights it synced carry no pn_sync_version row and the back-fill's "
+                          "conflict with the tracked fork row is ignored" % json.dumps(history_of(c)),
+                          {"kind": "history", "history": history_of(c), "observed": c,
+                           "refuted_statement": "Refuted.C19.version_lock_iff_any_order_refuted"},
+                          name="untracked-after-tracked", signature="C19-untracked-after-tracked-gap")
 
     # the property's own oracle on the implementation's verdicts
     bad = sorted(set(res["forks_property_on"]) | set(i for i in py_bad if real is not None and lines[i].startswith(real)))
